@@ -266,6 +266,11 @@ class LookupUnitSymbol(Contract):
         it.ctx.track("prefix", pfx_of(to_z3(a.symbol_str), a.unit_symbol_lut.term))
 
     def requires(self, it, a):
+        from pyvc.unyt_domain import SLut
+        if not isinstance(a.unit_symbol_lut, SLut):
+            # a concrete python dict as the table (e.g. the literal {} of a registry built without rows):
+            # outside the modelled subset, never a crash
+            raise Unsupported("_lookup_unit_symbol on a concrete dict")
         return []          # total (C20): an empty name is an unknown symbol -> UnitParseError
 
     def snapshot(self, it, a):
@@ -296,8 +301,10 @@ class LookupUnitSymbol(Contract):
         it.assume(z3.And(S.is_prefix(P, p), RowSort.present(base), RowSort.prefixable(base),
                          z3.Concat(p, rest) == s))
         from pyvc.unyt_domain import row_dim
-        res = (RowSort.scale(base) * S.prefix_value_term(P, p), row_dim(base),
-               RowSort.offset(base), it.fresh_str("latex"), False)
+        from pyvc.unyt_domain import MarkedTuple
+        # the generated row is written back as a _DerivedEntry (marker tuple): the `derived` ghost flag
+        res = MarkedTuple((RowSort.scale(base) * S.prefix_value_term(P, p), row_dim(base),
+                           RowSort.offset(base), it.fresh_str("latex"), False))
         lut.sv_setitem(it, a.symbol_str, res)
         return res
 
@@ -364,6 +371,8 @@ class GetUnitDataFromExpr(Contract):
             raise Unsupported("_get_unit_data_from_expr of a dimension expression")
         if not isinstance(e, SExpr):
             raise Unsupported("_get_unit_data_from_expr(%r)" % (e,))
+        if not isinstance(lut, SLut):
+            raise Unsupported("_get_unit_data_from_expr on a concrete dict as the table")
         it.call_log.append(self.name)
         from pyvc.unyt_domain import E_ONE
         if it.branch(e.term == E_ONE):
